@@ -55,7 +55,8 @@ Definition USER : nat := 3.
       (tasks.py:309-334): blocks until no task this thread (transitively)
       spawned is queued or running.
     - [AWaitDone j] (user threads): future.result(): blocks until the
-      transfer's announcing task [j] has ended.
+      transfer's announcing task [j] has ended (the final task, or the
+      submission task on its error path).
     - [AJoin] (user threads): executor.shutdown(wait=True) of all three
       executors: blocks until every executor queue is empty and no worker is
       occupied. *)
@@ -290,11 +291,15 @@ Record wf_plan (p : plan) : Prop := mkWf {
                                    In d (spawns pre) /\ t_stage (tk p d) = t_stage (tk p w);
   wf_userdeps : forall i, t_stage (tk p i) = USER -> t_deps (tk p i) = [];
   (* result() / shutdown() are user-thread actions; result() is called on a
-     future the same thread got from an earlier submit *)
+     future the same thread got from an earlier submit, or on a future of a
+     user thread with a smaller id (futures are handed over along a fixed
+     order of the user threads: no cyclic waiting between user threads) *)
   wf_useract : forall i a, In a (t_prog (tk p i)) ->
                            (a = AJoin \/ exists j, a = AWaitDone j) -> t_stage (tk p i) = USER;
   wf_waitdone : forall i pre j post, t_prog (tk p i) = pre ++ AWaitDone j :: post ->
-                                     exists c, In c (spawns pre) /\ (j = c \/ In j (descendants p c))
+      exists c, (In c (spawns pre) \/
+                 exists u, u < i /\ t_stage (tk p u) = USER /\ In c (spawns (t_prog (tk p u)))) /\
+                (j = c \/ In j (descendants p c))
 }.
 
 (** Executable check of the same (sound: StageProofs.wf_planb_sound). *)
@@ -302,31 +307,40 @@ Definition memb (x : nat) (l : list nat) : bool := existsb (Nat.eqb x) l.
 Fixpoint nodupb (l : list nat) : bool :=
   match l with [] => true | x :: r => negb (memb x r) && nodupb r end.
 
-Fixpoint prog_ok (p : plan) (seen : list nat) (prog : list action) : bool :=
+(** What the user threads with an id below [i] submit. *)
+Definition foreign (p : plan) (i : nat) : list nat :=
+  flat_map (fun u => if Nat.eqb (t_stage (tk p u)) USER then spawns (t_prog (tk p u)) else [])
+           (seq 0 i).
+
+(** [seen]: the children spawned so far by this program; [ext]: roots whose
+    futures may come from other user threads. *)
+Fixpoint prog_ok (p : plan) (ext seen : list nat) (prog : list action) : bool :=
   match prog with
   | [] => true
   | ASpawn c :: r =>
       forallb (fun d => memb d seen && Nat.eqb (t_stage (tk p d)) (t_stage (tk p c)))
               (t_deps (tk p c))
-      && prog_ok p (c :: seen) r
+      && prog_ok p ext (c :: seen) r
   | AWaitDone j :: r =>
-      existsb (fun c => Nat.eqb j c || memb j (descendants p c)) seen && prog_ok p seen r
-  | _ :: r => prog_ok p seen r
+      existsb (fun c => Nat.eqb j c || memb j (descendants p c)) (seen ++ ext)
+      && prog_ok p ext seen r
+  | _ :: r => prog_ok p ext seen r
   end.
 
 Definition user_action (a : action) : bool :=
   match a with AJoin | AWaitDone _ => true | _ => false end.
 
-Definition task_ok (p : plan) (t : task) : bool :=
+Definition task_ok (p : plan) (i : nat) : bool :=
+  let t := tk p i in
   (t_stage t <=? USER)
   && forallb (fun c => (c <? length p) && (t_stage (tk p c) <? t_stage t)) (spawns (t_prog t))
   && match t_tag t with Some _ => Nat.eqb (t_stage t) REQ | None => true end
-  && prog_ok p [] (t_prog t)
+  && prog_ok p (foreign p i) [] (t_prog t)
   && (negb (Nat.eqb (t_stage t) USER) || match t_deps t with [] => true | _ => false end)
   && (Nat.eqb (t_stage t) USER || negb (existsb user_action (t_prog t))).
 
 Definition wf_planb (p : plan) : bool :=
-  forallb (task_ok p) p
+  forallb (task_ok p) (seq 0 (length p))
   && nodupb (flat_map (fun t => spawns (t_prog t)) p)
   && forallb (fun c => (USER <=? t_stage (tk p c))
                        || existsb (fun t => memb c (spawns (t_prog t))) p)
@@ -346,3 +360,24 @@ Fixpoint msum (f : nat -> nat) (n : nat) : nat :=
   match n with 0 => 0 | S k => f k + msum f k end.
 Definition measure (p : plan) (st : state) : nat :=
   msum (fun i => weight p i (status_of st i)) (length p).
+
+(** A deterministic scheduler for examples and tests: the enabled thread with
+    the lowest ([first_enabled]) or highest ([last_enabled]) id moves. *)
+Definition enabledb (cfg : config) (p : plan) (st : state) (i : nat) : bool :=
+  match step cfg p st i with Some _ => true | None => false end.
+Definition first_enabled (cfg : config) (p : plan) (st : state) : option nat :=
+  find (enabledb cfg p st) (seq 0 (length p)).
+Definition last_enabled (cfg : config) (p : plan) (st : state) : option nat :=
+  find (enabledb cfg p st) (rev (seq 0 (length p))).
+Fixpoint drive (pick : state -> option nat) (cfg : config) (p : plan) (fuel : nat) (st : state)
+  : list nat :=
+  match fuel with
+  | 0 => []
+  | S f => match pick st with
+           | Some i => match step cfg p st i with
+                       | Some st' => i :: drive pick cfg p f st'
+                       | None => []
+                       end
+           | None => []
+           end
+  end.
